@@ -1,13 +1,53 @@
 (** C19 — The comparison helpers pass exactly when values agree within tolerance.
-    Property theorems only; each is closed by [exact] of a lemma from Proofs/Compare.v.
+    Property theorems only; each is closed by [exact] of a lemma from Proofs/Compare*.v.
     Model: Model/Compare.v (compare_values, compare, _compare_recursive = [cmp_rec], compare_recursive,
-    _handle_return) with binary64 leaves as kernel primitive floats.  No theorem uses a fact about the
-    float primitives: the closeness tests [isclose_f]/[isclose_c] (numpy's formula, one binary64 operation per
-    step) appear in the statements as they are, and are tied to numpy bit-exactly by the correspondence. *)
+    compare_molrecs, ProtoModel.compare, _handle_return) with binary64 leaves as kernel primitive floats.
+    The structural theorems use no fact about the float primitives: the closeness tests [isclose_f]/[isclose_c]
+    (numpy's formula, one binary64 operation per step) appear in the statements as they are, and are tied to numpy
+    bit-exactly by the correspondence; C19_isclose_real_band, C19_modulus_model_error, C19_nan_only_on_request and
+    C19_complex_real_axis_is_real_rule relate them to the rule of the property (FloatAxioms / Flocq).
+    Gen/CompareGlue.v is regenerated from qcelemental/testing.py on every run (harness/translate/cmpglue.py); the
+    C19_glue_* theorems prove "generated = hand model" for all inputs.
+
+    CLAUSE MAP (statement of C19 in properties.jsonl -> theorems; "corr" = differential correspondence + Python oracle)
+    S1 numeric comparison True <-> same shape and every element within atol + rtol*|expected|
+         C19_compare_values_spec (True, exactly), C19_compare_values_false_spec (False, exactly), C19_compare_values_total,
+         C19_compare_values_raise_spec / _raises_only (the only exception: unusable atol, outside the quantifier),
+         C19_ragged_is_false; the operands/keywords of np.isclose as the code passes them: C19_glue_isclose_calls
+       the inequality over the reals:  C19_isclose_real_band (real data, band of relative width 2^-51 around the edge),
+         C19_u64_value; complex data: C19_complex_real_axis_is_real_rule (zero imaginary parts: the real rule, all inputs),
+         C19_modulus_model_error (modulus off the axes) -- the band for complex data off the axes is NOT a theorem (corr,
+         judged >= 2^-46 from the edge)
+       NaNs equal only on request: C19_nan_only_on_request (all inputs)
+       sign flip only on request: C19_compare_values_no_phase_spec (equal_phase off: True <-> all close); on request the
+         second disjunct of C19_compare_values_spec
+       real and complex data / dtype choice: C19_compare_values_spec (both branches), C19_complex_computed_counts
+       public entry point (defaults, options): C19_glue_defaults, C19_public_verdicts, C19_options_inert
+    S2 exact comparison True <-> shape and every element equal
+         C19_compare_spec (True, exactly), C19_compare_false_spec (False, exactly), C19_compare_never_raises
+    S3 recursive comparison True <-> key sets match minus forgiven keys and every leaf passes the applicable rule
+         C19_recursive_errors_are_failing_sites (any depth/width), C19_recursive_spec, C19_recursive_spec_sites,
+         C19_name_is_site, C19_no_false_pass, C19_no_false_fail, C19_recursive_raise_spec
+       applicable rule per leaf type (the isinstance ladder, generated): C19_glue_ladder, C19_glue_tuple_as_list,
+         C19_glue_leaf_options, C19_float_leaf_spec, C19_bool_leaf_exact
+       forgiven keys (key boundaries, aa1f806): C19_forgive_key_boundary, C19_forgive_by_segments,
+         C19_forgiven_by_segments, C19_forgive_descends; the match test / entry normalisation / node names as the code
+         writes them: C19_glue_matching, C19_glue_compare_recursive, C19_glue_child_names
+       compare_molrecs (exact mode): C19_molrecs_is_recursive, C19_molrecs_normalise_idempotent,
+         C19_molrecs_version_forgiven, C19_molrecs_bond_orientation, C19_molrecs_other_keys_untouched, C19_glue_molrecs
+         (relative_geoms="align": not covered);  Model.compare: C19_protomodel_compare (pydantic .dict(): trusted, corr)
+    S4 message / return-handler options do not change the verdict
+         C19_options_inert, C19_handler_receives_verdict (compare_values, compare, compare_recursive),
+         C19_options_inert_molrecs, C19_handler_receives_verdict_molrecs (compare_molrecs incl. quiet=(verbose == 0),
+         ProtoModel.compare), C19_glue_return_sites (which verdict expression every return site hands over, and the
+         positional order (return_message, quiet)), C19_public_verdicts
+    Quantifier (shapes 0-3d, dtypes, perturbations at the edge, depth <= 4, forgive lists): the theorems hold for every
+    shape, depth and width of the model's trees; numpy's array construction / casting is modelled and tied by corr. *)
 From Coq Require Import PrimFloat ZArith List Bool String.
 Require Import QV.Model.Compare QV.Proofs.Compare.
 From Coq Require Import Rdefinitions Rbasic_fun R_sqrt.
-Require QV.Proofs.CompareReal.
+Require QV.Proofs.CompareReal QV.Proofs.CompareSpecial QV.Proofs.CompareMore.
+Require Import QV.Gen.CompareGlue QV.Proofs.CompareGlue.
 Import ListNotations.
 Local Open Scope string_scope.
 
@@ -164,7 +204,7 @@ Proof. exact compare_recursive_raise_spec. Qed.
 
 (** compare_molrecs (relative_geoms="exact"): it is compare_recursive on the normalised records ... *)
 Theorem C19_molrecs_is_recursive : forall o e c e' c',
-  massage true e = Ok e' -> massage true c = Ok c' -> compare_molrecs o e c = compare_recursive o e' c'.
+  massage true e = Ok e' -> massage true c = Ok c' -> compare_molrecs o e c = compare_recursive (mol_opts o) e' c'.
 Proof. exact molrecs_is_recursive. Qed.
 
 (** ... the normalisation (fragment_files to str, fragment_separators to int, provenance version popped, bonds as
@@ -233,6 +273,177 @@ Proof. intros R H ro. exact (handler_receives_verdict H ro). Qed.
 (** bool and numpy.bool_ leaves are exact leaves (repaired by f568480: np.bool_ used to be "not understood") *)
 Theorem C19_bool_leaf_exact : forall o ph np b c, leaf_ok o ph np (SBool b) c = exact_ok (SBool b) c.
 Proof. exact leaf_bool_rule. Qed.
+
+(* ------------------------------------------------------------------------------------------ *)
+(** Wave 3: companions closing the clause map *)
+
+(** without equal_phase no sign flip is ever allowed: True exactly when (passnone-both-None or) the casts succeed with
+    equal shapes and every element is close *)
+Theorem C19_compare_values_no_phase_spec : forall o e c, cv_phase o = false ->
+  (compare_values o e c = Ok true <->
+   both_none o e c = true \/
+   (atol_exc (atol o) = None /\
+    ((iscomplex_pair e c = Ok false /\
+      exists sh de dc, cast_with to_f e = COk (sh, de) /\ cast_with to_f c = COk (sh, dc) /\ Close (close_f o) dc de) \/
+     (iscomplex_pair e c = Ok true /\
+      exists sh de dc, cast_with to_c e = COk (sh, de) /\ cast_with to_c c = COk (sh, dc) /\ Close (close_c o) dc de)))).
+Proof. exact CompareMore.no_phase_spec. Qed.
+
+(** NaNs are equal only on request: when either side is NaN the binary64 test is true exactly when equal_nan is set and
+    both are NaN, whatever the tolerances *)
+Theorem C19_nan_only_on_request : forall atol rtol eqn c e,
+  PrimFloat.is_nan c = true \/ PrimFloat.is_nan e = true ->
+  isclose_f atol rtol eqn c e = eqn && PrimFloat.is_nan c && PrimFloat.is_nan e.
+Proof. exact CompareSpecial.isclose_f_nan. Qed.
+
+(** complex data with zero imaginary parts (what a real element becomes when the other input is complex) are judged by
+    the real rule, for all values incl. infinities and NaN; so C19_isclose_real_band applies to them *)
+Theorem C19_complex_real_axis_is_real_rule : forall atol rtol eqn c e,
+  isclose_c atol rtol eqn (c, fzero) (e, fzero) = isclose_f atol rtol eqn c e.
+Proof. exact CompareSpecial.isclose_c_real_axis. Qed.
+
+(** the False verdict of the exact comparison, exactly: a ragged nest, or both inputs are arrays and the shapes differ or
+    some element differs (and, with equal_phase, the dtype has no negation or some element differs from the negated one) *)
+Theorem C19_compare_false_spec : forall ph e c,
+  compare ph e c = Ok false <->
+  snd (nd_of e) = NdRagged \/
+  (exists she de, snd (nd_of e) = NdOk she de /\
+     (snd (nd_of c) = NdRagged \/
+      exists shc dc dte dtc,
+        snd (nd_of c) = NdOk shc dc /\ dtype_of (fst (nd_of e)) de = Some dte /\ dtype_of (fst (nd_of c)) dc = Some dtc /\
+        existsb is_sobj de = false /\ existsb is_sobj dc = false /\
+        (she <> shc \/
+         (she = shc /\ all2o de dc = Some false /\
+          (ph = false \/ neg_data dtc dc = None \/ exists ndc, neg_data dtc dc = Some ndc /\ all2o de ndc = Some false))))).
+Proof. exact CompareMore.compare_false_spec. Qed.
+
+(** the keyword defaults in the source are the documented ones: atol = 1e-6, rtol = 1e-16 (as binary64), every flag off,
+    verbose = 1, relative_geoms = "exact" *)
+Theorem C19_glue_defaults :
+  gen_values_defaults = doc_cvopts /\ gen_values_ropts = doc_ropts /\
+  gen_compare_phase = false /\ gen_compare_ropts = doc_ropts /\
+  gen_rec_defaults = doc_cropts /\ gen_rec_ropts = doc_ropts /\
+  gen_mol_defaults = doc_cropts /\ gen_mol_verbose = 1%Z /\ gen_mol_return_message = false /\
+  gen_mol_relative_geoms = "exact".
+Proof. exact defaults_documented. Qed.
+
+(** the rule applied at a node is the one the isinstance ladder of the source selects (first matching branch, subclass
+    facts of the running Python / numpy) for the node's type: str / int / bool / complex / np.bool_ (and their numpy
+    subclasses np.str_, np.complex128) exact; list / tuple elementwise; dict by key sets and common keys; float / np.number
+    through compare_values; ndarray through compare_values when its dtype is floating, else through compare; None by
+    identity; anything else is an error *)
+Theorem C19_glue_ladder : forall o ph name e c,
+  cmp_rec o ph name e c =
+  match gen_dispatch (pytype_of e) with
+  | AExact => match e with TSc _ s => ok_errs name (exact_ok s c) | _ => Unmodelled end
+  | AValues => ok_errs name (compare_values (gen_leaf_cvopts o ph) e c)
+  | ANone => ok_errs name (Ok (is_none_tree c))
+  | AArray => ok_errs name (match e with
+                            | TArr dt _ _ => if gen_floating dt then compare_values (gen_leaf_cvopts o ph) e c else compare ph e c
+                            | _ => Unmodelled
+                            end)
+  | ASeq => match e with
+            | TList es =>
+                match as_items c with
+                | ItemsUnm => Unmodelled
+                | ItemsNone => Ok [name]
+                | Items cs => if negb (Nat.eqb (List.length es) (List.length cs)) then Ok [name]
+                              else cmp_items (cmp_rec o ph) name es cs 0
+                end
+            | _ => Unmodelled
+            end
+  | ADict => match e with
+             | TDict ed =>
+                 match c with
+                 | TDict cd => bind (cmp_keys (cmp_rec o ph) name ed cd) (fun ch => Ok (dict_head name ed cd ++ ch)%list)
+                 | _ => Raise EAttribute
+                 end
+             | _ => Unmodelled
+             end
+  | AUnknown => Ok [name]
+  end.
+Proof. exact cmp_rec_by_ladder. Qed.
+
+Theorem C19_glue_tuple_as_list : gen_dispatch PyTuple = gen_dispatch PyList /\ forall t, gen_isinst (pytype_of t) CBaseModel = false.
+Proof. split; [exact tuple_as_list | exact no_node_is_basemodel]. Qed.
+
+(** the inner calls pass atol, rtol and equal_phase on and leave equal_nan / passnone at compare_values' defaults *)
+Theorem C19_glue_leaf_options : forall o ph, gen_leaf_cvopts o ph = cv_of o ph.
+Proof. exact gen_leaf_cvopts_eq. Qed.
+
+(** np.isclose is called as (computed, expected) with the caller's rtol / atol / equal_nan, the retry as (-computed, expected) *)
+Theorem C19_glue_isclose_calls : forall o cs es cs' es',
+  judge (close_f o) PrimFloat.opp (cv_phase o) cs es =
+    (if all2 (gen_close_f o) cs es then true else if cv_phase o then all2 (gen_retry_f o) cs es else false) /\
+  judge (close_c o) neg_c (cv_phase o) cs' es' =
+    (if all2 (gen_close_c o) cs' es' then true else if cv_phase o then all2 (gen_retry_c o) cs' es' else false).
+Proof. exact judge_by_generated_calls. Qed.
+
+Theorem C19_glue_matching :
+  (forall s, gen_rootify_fg s = rootify s) /\ (forall s, gen_rootify_ep s = rootify s) /\
+  (forall fg n, gen_matches_fg fg n = matches fg n) /\ (forall fg n, gen_matches_ep fg n = matches fg n) /\
+  (forall a, gen_refuse_atol a = PrimFloat.leb fone a).
+Proof. exact matching_generated. Qed.
+
+Theorem C19_glue_compare_recursive : forall o e c,
+  compare_recursive o e c =
+  if gen_refuse_atol (r_atol o) then Raise EValue
+  else
+    bind (cmp_rec (lo_of o) false "root" e c) (fun errs =>
+    bind (if negb (is_nil errs) && ep_truthy (r_phase o) then
+            bind (cmp_rec (lo_of o) true "root" e c) (fun nerrs =>
+            Ok (prune (fun n => existsb (fun ep => gen_matches_ep ep n)
+                                        (match r_phase o with
+                                         | EpBool true => errs | EpBool false => [] | EpList l => map gen_rootify_ep l
+                                         end)
+                                && negb (smem n nerrs)) errs))
+          else Ok errs) (fun errs1 =>
+    Ok (is_nil (prune (fun n => existsb (fun fg => gen_matches_fg fg n) (map gen_rootify_fg (forgive o))) errs1)))).
+Proof. exact compare_recursive_by_generated. Qed.
+
+Theorem C19_glue_child_names : forall name key, gen_child name key = child name key.
+Proof. exact gen_child_eq. Qed.
+
+Theorem C19_glue_return_sites :
+  gen_values_returns = [RTrue; RFalse; RFalse; RAllclose] /\
+  gen_compare_returns = [RFalse; RFalse; RAllclose] /\
+  gen_rec_returns = [RNoErrors].
+Proof. exact return_sites. Qed.
+
+Theorem C19_glue_molrecs :
+  gen_massage_keys = ["fragment_files"; "fragment_separators"; "provenance"; "connectivity"] /\
+  gen_mol_forward = ["atol"; "forgive"; "rtol"] /\
+  (forall (R : Type) (H : bool -> ropts -> R) v rm o e c,
+     compare_molrecs_full H v rm o e c =
+     with_handler H {| quiet := gen_mol_quiet v; return_message := rm |} (compare_molrecs o e c)).
+Proof. exact molrecs_glue. Qed.
+
+(** a key the normalisation does not name reaches the comparison untouched *)
+Theorem C19_molrecs_other_keys_untouched : forall popv k v r,
+  smem k gen_massage_keys = false ->
+  massage_items popv ((k, v) :: r) = bind (massage_items popv r) (fun r' => Ok ((k, v) :: r')).
+Proof. exact massage_other_keys. Qed.
+
+Theorem C19_options_inert_molrecs : forall v rm ro,
+  (forall o e c, verdict_of (compare_molrecs_full handle_return v rm o e c) = compare_molrecs o e c) /\
+  (forall o e c, verdict_of (protomodel_compare_full handle_return ro o e c) = protomodel_compare o e c).
+Proof. exact options_inert_molrecs. Qed.
+
+Theorem C19_handler_receives_verdict_molrecs : forall (R : Type) (H : bool -> ropts -> R) v rm ro,
+  (forall o e c b, compare_molrecs o e c = Ok b ->
+     compare_molrecs_full H v rm o e c = Ok (H b {| quiet := Z.eqb v 0; return_message := rm |})) /\
+  (forall o e c b, protomodel_compare o e c = Ok b -> protomodel_compare_full H ro o e c = Ok (H b ro)).
+Proof. intros R H v rm ro. exact (handler_receives_verdict_molrecs H v rm ro). Qed.
+
+(** every public entry point with the default handler: a value whose verdict is b comes back exactly when the core says b
+    (so each specification above is a specification of what the caller receives, whatever quiet / return_message / verbose) *)
+Theorem C19_public_verdicts : forall ro v rm b,
+  (forall o e c, (exists r, compare_values_full handle_return ro o e c = Ok r /\ ret_verdict r = b) <-> compare_values o e c = Ok b) /\
+  (forall ph e c, (exists r, compare_full handle_return ro ph e c = Ok r /\ ret_verdict r = b) <-> compare ph e c = Ok b) /\
+  (forall o e c, (exists r, compare_recursive_full handle_return ro o e c = Ok r /\ ret_verdict r = b) <-> compare_recursive o e c = Ok b) /\
+  (forall o e c, (exists r, compare_molrecs_full handle_return v rm o e c = Ok r /\ ret_verdict r = b) <-> compare_molrecs o e c = Ok b) /\
+  (forall o e c, (exists r, protomodel_compare_full handle_return ro o e c = Ok r /\ ret_verdict r = b) <-> compare_recursive o e c = Ok b).
+Proof. exact public_verdicts. Qed.
 
 (* ------------------------------------------------------------------------------------------ *)
 (** Non-vacuity and regression examples (kernel evaluation of the model, binary64 by the kernel primitives). *)
@@ -321,6 +532,24 @@ Example C19_ex_molrecs :
   (exists t, massage true rec_e = Ok t /\ massage false t = Ok t /\ massage true t = Raise EKey).
 Proof. repeat split. eexists. repeat split. Qed.
 
+(** the generated ladder on the node types whose branch depends on the order of the isinstance tests or on a numpy
+    subclass relation: np.complex128 (also an np.number) and np.str_ are exact leaves, np.int64 / np.float64 go through
+    compare_values, bool (an int) and np.bool_ are exact, a set is not understood *)
+Example C19_ex_ladder :
+  gen_dispatch NpComplex = AExact /\ gen_dispatch NpStr = AExact /\ gen_dispatch NpInt = AValues /\
+  gen_dispatch NpFloat = AValues /\ gen_dispatch PyBool = AExact /\ gen_dispatch NpBool = AExact /\
+  gen_dispatch PyInt = AExact /\ gen_dispatch PySet = AUnknown /\ gen_dispatch PyNone = ANone /\
+  gen_floating DFloat = true /\ gen_floating DCplx = false /\ gen_floating DInt = false.
+Proof. repeat split. Qed.
+
+(** NaN on request, and complex data on the real axis at the edge of C19_ex_edge *)
+Example C19_ex_nan_axis :
+  compare_values {| atol := atol o6; rtol := rtol o6; equal_nan := true; cv_phase := false; passnone := false |} (fl nan) (fl nan) = Ok true /\
+  compare_values o6 (TSc false (SCplx 1 0)) (fl 0x1.000010c6f7a0bp+0) = Ok true /\
+  compare_values o6 (TSc false (SCplx 1 0)) (fl 0x1.000010c6f7a0cp+0) = Ok false /\
+  compare true (TList [TSc false (SInt 1)]) (TList [TSc false (SStr "a")]) = Ok false.
+Proof. repeat split. Qed.
+
 Print Assumptions C19_compare_values_spec.
 Print Assumptions C19_isclose_real_band.
 Print Assumptions C19_u64_value.
@@ -353,3 +582,21 @@ Print Assumptions C19_forgive_descends.
 Print Assumptions C19_options_inert.
 Print Assumptions C19_handler_receives_verdict.
 Print Assumptions C19_bool_leaf_exact.
+Print Assumptions C19_compare_values_no_phase_spec.
+Print Assumptions C19_nan_only_on_request.
+Print Assumptions C19_complex_real_axis_is_real_rule.
+Print Assumptions C19_compare_false_spec.
+Print Assumptions C19_glue_defaults.
+Print Assumptions C19_glue_ladder.
+Print Assumptions C19_glue_tuple_as_list.
+Print Assumptions C19_glue_leaf_options.
+Print Assumptions C19_glue_isclose_calls.
+Print Assumptions C19_glue_matching.
+Print Assumptions C19_glue_compare_recursive.
+Print Assumptions C19_glue_child_names.
+Print Assumptions C19_glue_return_sites.
+Print Assumptions C19_glue_molrecs.
+Print Assumptions C19_molrecs_other_keys_untouched.
+Print Assumptions C19_options_inert_molrecs.
+Print Assumptions C19_handler_receives_verdict_molrecs.
+Print Assumptions C19_public_verdicts.
